@@ -9,6 +9,9 @@
 (* src   : the data, path -> content (Absent = no file); EmptyDirs = the     *)
 (*         directories of src that contain no file (they are not tracked)    *)
 (* A single file is the case Paths = {Root}.                                 *)
+(* Concretisation (harness): a file named like its sibling directory plus a  *)
+(* suffix ("s ü.a" / "s ü/"), a files-only directory whose name is a string   *)
+(* prefix of its sibling directory ("s" / "s ü"), three levels of nesting.    *)
 (***************************************************************************)
 EXTENDS Naturals, FiniteSets, TLC
 
